@@ -48,6 +48,7 @@ func checkC18(c *Ctx, r *Report) {
 	// the front-ends agree because every decoder output (map[string]interface{} from JSON/HJSON, map[interface{}]interface{}
 	// from YAML) goes through the same per-name store: no normalize function has a path of its own for one representation
 	namedStoreRule(c, r, "R18h")
+	numericSiblingsRule(c, r)
 	r.Rule("R18b", "source plumbing: MetaData stores the address of its Meta copy into options.meta; value constructors on normalize* paths receive opts.meta; error constructors pass their *Meta on towards messageMeta", 20)
 	metaDataRule(c, r)
 	metaReachesValues(c, r, "R18b")
@@ -628,5 +629,58 @@ func intermediateMetaRule(c *Ctx, r *Report) {
 	}
 	if n == 0 {
 		r.add("R18g", name, "intermediate node metadata", c.Pos(fn.Pos()), Undecided, true, "cfgPath.SetValue creates no node with New(): cannot tell how intermediate levels get their metadata")
+	}
+}
+
+// numericSiblingsRule (R18i): which node a whole number becomes depends on the front-end, not on the document —
+// yaml decodes 1 to an int (cfgInt / cfgUint), json and hjson decode every number to float64 (cfgFloat). The three
+// numeric node types must therefore support the same set of conversions: a conversion one of them offers and
+// another refuses makes the same document unpack through one front-end and fail through another.
+func numericSiblingsRule(c *Ctx, r *Report) {
+	r.Rule("R18i", "cfgInt, cfgUint and cfgFloat support the same conversions (toBool, toString, toInt, toUint, toFloat, toConfig): each is offered by all three or refused by all three", 6)
+	kinds := []string{"cfgInt", "cfgUint", "cfgFloat"}
+	for _, m := range []string{"toBool", "toString", "toInt", "toUint", "toFloat", "toConfig"} {
+		var desc []string
+		supp := map[string]bool{}
+		undecided := ""
+		for _, k := range kinds {
+			f := c.MethodImpl(types.NewPointer(c.Named("", k)), m)
+			if f == nil {
+				undecided = k + "." + m + " not found"
+				continue
+			}
+			f = declared(c, f)
+			offered := false
+			for _, ret := range Returns(f) {
+				if len(ret.Results) == 0 {
+					continue
+				}
+				e := RetVal(ret, len(ret.Results)-1)
+				refused := false
+				for _, s := range append(Sources(e), e) {
+					if l, ok := s.(*ssa.UnOp); ok && l.Op == token.MUL {
+						if g, ok := l.X.(*ssa.Global); ok && globalNonNil(g) {
+							refused = true
+						}
+					}
+				}
+				if !refused {
+					offered = true
+				}
+			}
+			supp[k] = offered
+			if offered {
+				desc = append(desc, k+": offered ("+c.FnName(f)+")")
+			} else {
+				desc = append(desc, k+": refused")
+			}
+		}
+		if undecided != "" {
+			r.add("R18i", "ucfg.numeric nodes", m, "-", Undecided, true, undecided)
+			continue
+		}
+		agree := supp["cfgInt"] == supp["cfgUint"] && supp["cfgUint"] == supp["cfgFloat"]
+		r.Check(agree, "R18i", "ucfg.numeric nodes", m, "-", strings.Join(desc, "; "),
+			"the numeric node types do not support the same conversions — "+strings.Join(desc, "; ")+": a whole number is a cfgInt/cfgUint when the document came through yaml and a cfgFloat when it came through json or hjson, so the same document unpacks through one front-end and fails through another")
 	}
 }
